@@ -9,6 +9,7 @@ Decides over everything reachable from Parser::parse_sql (lexer and parser):
       depth counter with a bound and returns an error) — otherwise arbitrarily deep input overflows the stack;
  (R3) loop progress: in every loop of the lexer and the parser, each cycle of the control-flow graph contains a call
       that consumes input (reaches Parser::advance / Lexer::advance) or pulls from an iterator.
+The temporal literal parsers in vibesql_types that the parser calls (DATE/TIME/TIMESTAMP/INTERVAL '...') are inventoried by C22.
 Does NOT decide time bounds beyond progress, nor recursion in Drop of the produced tree."""
 import re
 from ..engine.facts import callee_name
